@@ -578,7 +578,7 @@ pub fn launcher_k<K: Kind>(args: &[String]) -> i32 {
             Outcome::Pass | Outcome::ExpectedAbort | Outcome::OtherView | Outcome::KnownFinding => {}
             _ => undecided.push(format!("replay {}: {:?} {}", f.display(), r.outcome, r.msg)),
         }
-        replay_notes.push(format!("{}: {:?}", f.file_name().unwrap().to_string_lossy(), r.outcome));
+        replay_notes.push(format!("{}: {:?}{}", f.file_name().unwrap().to_string_lossy(), r.outcome, if r.outcome == Outcome::Pass && !r.msg.is_empty() && r.msg.len() < 300 { format!(" ({})", r.msg) } else { String::new() }));
     }
     let known = load_known();
     for k in known.known.iter().filter(|k| k.property == id) {
